@@ -76,9 +76,12 @@ RunChunk == 4096
 SX == INSTANCE SequencesExt
 FRun(s, e, i, j) == SX!FoldLeft(LAMBDA acc, x : FDo(acc, RunAct(e, x)), s, [y \in 1..(j - i) |-> i + y - 1])
 
-(* A run whose actions repeat with period per (keys cycle modulo km, one value): if one period    *)
-(* leaves the state as it was except for the eviction counter, so does every following period     *)
-(* (LRU!EvictFree: no method looks at that counter) - the whole periods left are applied at once.  *)
+(* Two kinds of runs are applied in one piece instead of call by call:                            *)
+(*  - the actions repeat with period per (keys cycle modulo km, one value): if one period leaves   *)
+(*    the state as it was except for the eviction counter, so does every following period          *)
+(*    (LRU!EvictFree: no method looks at that counter) - the whole periods left are applied at once *)
+(*  - the rest of the run stores keys that are not there, one after the other, and there is room   *)
+(*    for all of them: each goes to the front and nothing else changes (LRU!FillLemma)             *)
 TRun ==
   /\ l <= Len(TraceLog)
   /\ LET e == TraceLog[l] IN
@@ -89,9 +92,23 @@ TRun ==
               s1   == IF per > 0 /\ left >= 2 * per THEN FRun(FSt, e, rep, rep + per) ELSE FSt
               skip == per > 0 /\ left >= 2 * per /\ [s1 EXCEPT !.evict = evict] = FSt
               m    == left \div per
+              ch   == IF sized THEN e.a.s ELSE 1
+              k1   == e.a.k + e.ko + rep              \* first and last key of the rest of the run
+              k2   == e.a.k + e.ko + e.n - 1
+              fill == /\ e.a.op \in {"set", "setnx"} /\ e.km = 0 /\ e.dk = 1 /\ left >= 2
+                      /\ size + left * ch <= cap
+                      /\ \A i \in 1..Len(order) : order[i] < k1 \/ order[i] > k2
               step == IF per > 0 THEN per ELSE RunChunk
-              j    == IF skip THEN rep + m * per ELSE IF rep + step < e.n THEN rep + step ELSE e.n
+              j    == IF skip THEN rep + m * per ELSE IF fill THEN e.n
+                      ELSE IF rep + step < e.n THEN rep + step ELSE e.n
+              new  == k1..k2
               t    == IF skip THEN [FSt EXCEPT !.evict = evict + m * (s1.evict - evict)]
+                      ELSE IF fill
+                      THEN [FSt EXCEPT !.order = [i \in 1..left |-> k2 + 1 - i] \o order,
+                                       !.val = [x \in DOMAIN val \cup new |->
+                                                  IF x \in new THEN e.a.v + e.dv * (x - e.a.k - e.ko) ELSE val[x]],
+                                       !.sz = [x \in DOMAIN sz \cup new |-> IF x \in new THEN ch ELSE sz[x]],
+                                       !.size = size + left * ch]
                       ELSE FRun(FSt, e, rep, j)
           IN /\ order' = t.order /\ val' = t.val /\ sz' = t.sz /\ size' = t.size /\ evict' = t.evict
              /\ UNCHANGED <<cap, sized>>
